@@ -3,6 +3,7 @@ package main
 import (
 	"bytes"
 	"fmt"
+	"io"
 	"math/rand"
 	"strings"
 	"testing/fstest"
@@ -561,6 +562,33 @@ func c12Script(c *Ctx, r *rand.Rand) {
 		}
 		c.distinct(hashKey(src))
 	}
+	// host route: the same histories driven through the embedding API (NewStruct, GetAttr, SetAttr, values
+	// passed to and returned from script functions)
+	nHost := c.pick(60, 1500)
+	for p := 0; p < nHost; p++ {
+		desc, zeros, evs, err := c12HostHistory(r, p)
+		if err != nil {
+			c.violate(hashKey(desc), "struct history through the host API failed: "+firstLine(err.Error()), map[string]any{"history": desc, "error": err.Error()})
+			continue
+		}
+		starts = append(starts, len(lines))
+		srcs = append(srcs, desc)
+		lines = append(lines, map[string]any{"op": "reset", "id": fmt.Sprintf("host/%d", p), "zeros": zeros})
+		for _, e := range evs {
+			for _, k := range []string{"f", "val", "of", "m", "got", "nfields"} {
+				if _, ok := e[k]; !ok {
+					if k == "val" || k == "got" {
+						e[k] = ""
+					} else {
+						e[k] = 0
+					}
+				}
+			}
+			lines = append(lines, e)
+		}
+		c.distinct(hashKey(desc))
+	}
+	c.Extra["struct_host_histories"] = nHost
 	c.Evaluations += int64(len(lines))
 	if len(srcs) > 0 {
 		c.sample(map[string]any{"struct_program": clip(srcs[0], 600)})
@@ -610,4 +638,144 @@ func c12Zeros(src string) []string {
 		out = []string{}
 	}
 	return out
+}
+
+// c12HostHistory: a struct type with 1-5 fields of type int / string / bool / float64 and two methods; a random history
+// of new / alias / write / read / method operations in which every operation goes through the embedding API by one of
+// several routes (new: script constructor via Call, NewStruct on the type value, NewStruct with initial fields; alias:
+// copy of the Value, through a script identity function; write: SetAttr, script setter; read: GetAttr, script getter).
+func c12HostHistory(r *rand.Rand, id int) (desc string, zeros []string, evs []map[string]any, err error) {
+	defer func() {
+		if x := recover(); x != nil {
+			err = fmt.Errorf("panic: %v", x)
+		}
+	}()
+	types := []string{"int", "string", "bool", "float64"}
+	nfields := 1 + r.Intn(5)
+	ftypes := make([]string, nfields)
+	var b, log strings.Builder
+	b.WriteString("package main\ntype T struct {\n")
+	for i := range ftypes {
+		ftypes[i] = types[r.Intn(len(types))]
+		fmt.Fprintf(&b, "\tF%d %s\n", i, ftypes[i])
+		zeros = append(zeros, map[string]string{"int": "0", "string": "", "bool": "false", "float64": "0"}[ftypes[i]])
+	}
+	b.WriteString("}\nfunc NewT() *T { return &T{} }\nfunc Id(p *T) *T { return p }\n")
+	for i, ft := range ftypes {
+		fmt.Fprintf(&b, "func Get%d(p *T) %s { return p.F%d }\nfunc Set%d(p *T, x %s) { p.F%d = x }\n", i, ft, i, i, ft, i)
+	}
+	mf := r.Intn(nfields)
+	fmt.Fprintf(&b, "func (t *T) M0() %s { return t.F%d }\nfunc CallM0(p *T) %s { return p.M0() }\n", ftypes[mf], mf, ftypes[mf])
+	src := b.String()
+	log.WriteString(src)
+	vm := goat.New(goat.WithStdout(io.Discard))
+	goat.VerifSetBudget(2000000)
+	defer goat.VerifSetBudget(-1)
+	if _, err = vm.Eval(fstest.MapFS{}, "m.go", src); err != nil {
+		return log.String(), zeros, nil, err
+	}
+	mkVal := func(ft string, n int) (goat.Value, string) {
+		switch ft {
+		case "int":
+			return goat.Int(n), fmt.Sprint(n)
+		case "string":
+			return goat.String(fmt.Sprintf("s%d", n)), fmt.Sprintf("s%d", n)
+		case "bool":
+			return goat.Bool(n%2 == 1), fmt.Sprint(n%2 == 1)
+		}
+		return goat.Float64(float64(n) + 0.5), fmt.Sprintf("%d.5", n)
+	}
+	text := func(ft string, v goat.Value) string {
+		switch ft {
+		case "int":
+			return fmt.Sprint(v.Int())
+		case "string":
+			return v.String()
+		case "bool":
+			return fmt.Sprint(v.Bool())
+		}
+		return fmt.Sprint(v.Float64())
+	}
+	call1 := func(name string, args ...goat.Value) goat.Value {
+		rets, e := vm.Call(name, 1, args...)
+		if e != nil {
+			panic(fmt.Sprintf("%s: %v", name, e))
+		}
+		return rets[0]
+	}
+	var vars []goat.Value
+	newInst := func() {
+		route := r.Intn(3)
+		var v goat.Value
+		var init []int
+		switch route {
+		case 0:
+			v = call1("main.NewT")
+		case 1:
+			v = goat.NewStruct(vm.Get("main.T"), nil)
+		default:
+			var data []goat.Value
+			for _, f := range r.Perm(nfields)[:r.Intn(nfields+1)] {
+				val, _ := mkVal(ftypes[f], 7+f)
+				data = append(data, goat.String(fmt.Sprintf("F%d", f)), val)
+				init = append(init, f)
+			}
+			v = goat.NewStruct(vm.Get("main.T"), data)
+		}
+		vars = append(vars, v)
+		fmt.Fprintf(&log, "new route=%d init=%v\n", route, init)
+		evs = append(evs, map[string]any{"op": "new", "var": len(vars), "nfields": nfields})
+		for _, f := range init {
+			_, txt := mkVal(ftypes[f], 7+f)
+			evs = append(evs, map[string]any{"op": "write", "var": len(vars), "f": f, "val": txt})
+		}
+	}
+	newInst()
+	nops := 10 + r.Intn(50)
+	for i := 0; i < nops; i++ {
+		v := r.Intn(len(vars))
+		f := r.Intn(nfields)
+		route := r.Intn(2)
+		switch x := r.Intn(100); {
+		case x < 40:
+			val, txt := mkVal(ftypes[f], 1+r.Intn(900))
+			if route == 0 {
+				vars[v].SetAttr(fmt.Sprintf("F%d", f), val)
+			} else if _, e := vm.Call(fmt.Sprintf("main.Set%d", f), 0, vars[v], val); e != nil {
+				return log.String(), zeros, nil, e
+			}
+			fmt.Fprintf(&log, "write route=%d v%d.F%d = %s\n", route, v, f, txt)
+			evs = append(evs, map[string]any{"op": "write", "var": v + 1, "f": f, "val": txt})
+		case x < 80:
+			var got goat.Value
+			if route == 0 {
+				got = vars[v].GetAttr(fmt.Sprintf("F%d", f))
+			} else {
+				got = call1(fmt.Sprintf("main.Get%d", f), vars[v])
+			}
+			fmt.Fprintf(&log, "read route=%d v%d.F%d -> %s\n", route, v, f, text(ftypes[f], got))
+			evs = append(evs, map[string]any{"op": "read", "var": v + 1, "f": f, "got": text(ftypes[f], got)})
+		case x < 86:
+			got := call1("main.CallM0", vars[v])
+			fmt.Fprintf(&log, "method v%d.M0() -> %s\n", v, text(ftypes[mf], got))
+			evs = append(evs, map[string]any{"op": "method", "var": v + 1, "f": mf, "val": "0", "got": text(ftypes[mf], got)})
+		case x < 93 && len(vars) < 7:
+			if route == 0 {
+				vars = append(vars, vars[v])
+			} else {
+				vars = append(vars, call1("main.Id", vars[v]))
+			}
+			fmt.Fprintf(&log, "alias route=%d v%d = v%d\n", route, len(vars)-1, v)
+			evs = append(evs, map[string]any{"op": "alias", "var": len(vars), "of": v + 1})
+		case len(vars) < 7:
+			newInst()
+		}
+	}
+	for v := range vars {
+		for f := 0; f < nfields; f++ {
+			got := vars[v].GetAttr(fmt.Sprintf("F%d", f))
+			evs = append(evs, map[string]any{"op": "read", "var": v + 1, "f": f, "got": text(ftypes[f], got)})
+		}
+	}
+	return log.String(), zeros, evs, nil
 }
